@@ -1,6 +1,7 @@
 import Rare.Proofs.C04
 import Rare.Proofs.C04Buf
 import Rare.Proofs.C04Tie
+import Rare.Proofs.C04More
 import Rare.Gen.C04
 /-!
 # C04 — line splitting is exact; returned line buffers are never overwritten
@@ -357,5 +358,95 @@ theorem constructors_match_source (n : Nat) (rd : Reader) :
 /-- Non-vacuity of the tie: the re-assembled program really runs (same concrete scan as above). -/
 example : (match ((Imm.init 2 ⟨[97, 13, 10, 98], []⟩).scanG ImmFrags.gen 5).1 with
     | .tok v b => some (v, b) | _ => none) = some (⟨1, 0, 1⟩, [97]) := by decide
+
+/-! ## Round 4: the specification characterised, unterminated tails, stalls, allocation sizes -/
+
+/-- `splitLines` satisfies the three equations of the property text (nothing for the empty stream; a
+    newline-terminated segment yields the segment minus one trailing `\r`, then the lines of the rest; a
+    non-empty newline-free stream is one line, verbatim) and is the only function that does. -/
+theorem splitLines_characterised :
+    splitLines [] = [] ∧
+    (∀ a rest, nl ∉ a → splitLines (a ++ nl :: rest) = dropCR a :: splitLines rest) ∧
+    (∀ a, nl ∉ a → a ≠ [] → splitLines a = [a]) ∧
+    (∀ f : Bytes → List Bytes, f [] = [] →
+      (∀ a rest, nl ∉ a → f (a ++ nl :: rest) = dropCR a :: f rest) →
+      (∀ a, nl ∉ a → a ≠ [] → f a = [a]) → f = splitLines) :=
+  ⟨splitLines_nil, splitLines_line, splitLines_tail,
+   fun f h0 h1 h2 => funext fun d => splitLines_unique_aux f h0 h1 h2 d.length d (Nat.le_refl _)⟩
+
+/-- Cutting a stream right after a newline splits its lines into the lines of the two halves (so reading
+    a file in newline-aligned pieces, as the tail follower does, loses nothing). -/
+theorem splitLines_compositional (p x : Bytes) :
+    splitLines (p ++ [nl] ++ x) = splitLines (p ++ [nl]) ++ splitLines x :=
+  splitLines_append_terminated p x
+
+/-- A final unterminated non-empty segment is delivered verbatim by both scanners - in particular a trailing
+    `\r` before EOF without `\n` is kept (only newline-terminated lines lose their `\r`) - for every chunking. -/
+theorem unterminated_tail_verbatim (n : Nat) (q t : Bytes) (script : List Step)
+    (ht : nl ∉ t) (hne : t ≠ []) (hs : ∀ st ∈ script, st.err = none) :
+    (1 ≤ n → (Imm.run n (q ++ [nl] ++ t) script).1.map (·.2) = splitLines (q ++ [nl]) ++ [t]) ∧
+    (2 ≤ n → (Buf.run n (q ++ [nl] ++ t) script).1.map (·.2) = splitLines (q ++ [nl]) ++ [t]) ∧
+    (1 ≤ n → (Imm.run n t script).1.map (·.2) = [t]) ∧
+    (2 ≤ n → (Buf.run n t script).1.map (·.2) = [t]) := by
+  have e : splitLines (q ++ [nl] ++ t) = splitLines (q ++ [nl]) ++ [t] := by
+    rw [splitLines_append_terminated, splitLines_tail t ht hne]
+  refine ⟨fun h => ?_, fun h => ?_, fun h => ?_, fun h => ?_⟩
+  · rw [imm_chunking_independent n _ script h hs, e]
+  · rw [buf_chunking_independent n _ script h hs, e]
+  · rw [imm_chunking_independent n _ script h hs, splitLines_tail t ht hne]
+  · rw [buf_chunking_independent n _ script h hs, splitLines_tail t ht hne]
+
+example : (Imm.run 3 [97, 10, 98, 13] [⟨2, none⟩, ⟨0, none⟩]).1.map (·.2) = [[97], [98, 13]] := by decide
+
+/-- The scanner has no bound on consecutive `(0, nil)` reads (unlike `bufio.Scanner`'s 100): after `N` such
+    reads, for every `N`, `Scan` is still in its read loop, having consumed all `N` script steps and
+    nothing else.  So `imm_terminates` is exactly as strong as it can be: every *finite* stall is survived,
+    and a reader stalling for ever is outside what any scanner without such a bound can handle. -/
+theorem imm_no_stall_bound (b N : Nat) (data : Bytes) (h : 1 ≤ b) :
+    (Imm.init b ⟨data, List.replicate N ⟨0, none⟩⟩).scan N = (.fuel, Imm.init b ⟨data, []⟩) := by
+  have ht : (Imm.init b ⟨data, List.replicate N ⟨0, none⟩⟩).top = none := by
+    simp [Imm.top, Imm.init]
+  simp only [Imm.scan, ht]
+  rw [readLoop_stalls N _ [] (by simp [Imm.init]; omega) (by simpa [Imm.init] using h) (by simp [Imm.init])]
+  simp [Imm.init]
+
+/-- Memory: after any number of `Scan()` calls the immediate scanner's backing array has its initial size
+    or the size "an unterminated fragment of the input + bufSize", and the valid part never exceeds it.
+    So the allocation is bounded by the longest line plus `bufSize`, whatever the chunking. -/
+theorem imm_alloc_bound (b : Nat) (data : Bytes) (script : List Step) (fuel k : Nat) (h : 1 ≤ b) :
+    let s := (Imm.scanAll fuel k (Imm.init b ⟨data, script⟩)).2.2
+    s.buf.length ≤ s.cap ∧
+    (s.cap = b ∨ ∃ w, w <:+: data ∧ nl ∉ w ∧ s.cap = w.length + b) := by
+  intro s
+  have hg := run_good b data script h
+  have h1 : s.buf.length ≤ s.cap := scanAll_closed closed_end_le_cap fuel k hg (by simp [Imm.init])
+  have h2 : s.bufSize = b := scanAll_closed (closed_bufSize b) fuel k hg (by simp [Imm.init])
+  have h3 : s.delivered ++ s.rd.rest = data :=
+    scanAll_closed (closed_stream data) fuel k hg (by simp [Imm.init])
+  have h4 : AllocOK s := scanAll_alloc fuel k hg (Or.inl (by simp [Imm.init]))
+  refine ⟨h1, ?_⟩
+  rcases h4 with h4 | ⟨w, hw, hn, hc⟩
+  · exact Or.inl (by rw [h4, h2])
+  · refine Or.inr ⟨w, ?_, hn, by rw [hc, h2]⟩
+    rw [← h3]; exact infix_append_right _ hw
+
+/-- Memory of the buffered scanner: every array it ever allocated (the retained ones included) is at most
+    `max(maxBufLen, |w| + maxBufLen/2)` long for an unterminated fragment `w` of the input. -/
+theorem buf_alloc_bound (m : Nat) (data : Bytes) (script : List Step) (fuel k : Nat) (h : 2 ≤ m) (hf : 0 < fuel) :
+    ∀ a ∈ (Buf.scanAll fuel k (Buf.init m ⟨data, script⟩)).2.2.arrays,
+      ∃ w, w <:+: data ∧ nl ∉ w ∧ a.length ≤ max m (w.length + m / 2) := by
+  intro a ha
+  have hg := brun_good m data script h
+  have h2 := bscanAll_closed (bclosed_maxBufLen m) fuel hf k hg (by simp [Buf.init])
+  have h3 := bscanAll_closed (bclosed_stream data) fuel hf k hg (by simp [Buf.init])
+  have h4 : BAllocOK _ := bscanAll_alloc fuel hf k hg (by
+    intro a ha
+    simp [Buf.arrays, Buf.init] at ha
+    subst ha
+    exact ⟨[], List.nil_infix, by simp, by simp⟩)
+  obtain ⟨w, hw, hn, hl⟩ := h4 a ha
+  refine ⟨w, ?_, hn, by rw [h2] at hl; exact hl⟩
+  rw [← h3]; exact infix_append_right _ hw
+
 
 end Rare.C04
